@@ -67,34 +67,34 @@ def one_shard(args):
                        env=pkg_env(pkg_path), stdout=subprocess.PIPE, stderr=subprocess.PIPE)
     if p.returncode != 0:
         raise MachineryError("driver failed in shard %d:\n%s" % (shard, p.stderr.decode()[-3000:]))
-    counts = json.loads(p.stdout.decode().strip().splitlines()[-1])
+    info = json.loads(p.stdout.decode().strip().splitlines()[-1])
     os.unlink(states)
     t2 = time.time()
     fails = []
-    if counts["sessions"]:
-        env2 = {"LSP_MODEL": model, "CODEC_TRACE": trace}
-        rc, out = common.run_tlc("CodecTrace", trace_cfg(counts["sessions"], counts["events"]), env=env2, heap="3g")
+    samples = []
+    nsess = nev = 0
+    for ch in info["chunks"]:
+        nsess += ch["sessions"]
+        doc = json.load(open(ch["path"], encoding="utf-8"))
+        events = sum(len(s_["ev"]) for s_ in doc["sessions"])
+        nev += events
+        env2 = {"LSP_MODEL": model, "CODEC_TRACE": ch["path"]}
+        rc, out = common.run_tlc("CodecTrace", trace_cfg(ch["sessions"], events), env=env2, heap="3g")
         if "Model checking completed. No error has been found." not in out or '"@DONE' not in out:
-            raise MachineryError("CodecTrace.tla did not accept the trace file of shard %d:\n%s" % (shard, out[-3000:]))
+            raise MachineryError("CodecTrace.tla did not accept trace chunk %s:\n%s" % (ch["path"], out[-3000:]))
         fl = list(common.tagged_lines(out, "@F"))
         if fl:
-            sess = {s["sid"]: s for s in json.load(open(trace, encoding="utf-8"))["sessions"]}
+            sess = {s_["sid"]: s_ for s_ in doc["sessions"]}
             for f in fl:
                 fails.append({"session": sess[f["sid"]], "l": f["l"], "c": sorted(f["c"]), "pos": sorted(f["pos"]) if f["pos"] else []})
-    samples = []
-    by_kind = {}
-    if counts["sessions"]:
-        allsess = json.load(open(trace, encoding="utf-8"))["sessions"]
-        for s_ in allsess:
-            by_kind[s_["sk"]] = by_kind.get(s_["sk"], 0) + 1
-        if shard == 0:
+        if shard == 0 and not samples:
             seen = set()
-            for s_ in allsess:
+            for s_ in doc["sessions"]:
                 if s_["sk"] not in seen and len(json.dumps(s_)) < 4000:
                     seen.add(s_["sk"])
                     samples.append(s_)
-    os.unlink(trace)
-    return {"shard": shard, "by_kind": by_kind, "generated": sg, "distinct": sd, "sessions": counts["sessions"], "events": counts["events"],
+        os.unlink(ch["path"])
+    return {"shard": shard, "by_kind": info["by_kind"], "generated": sg, "distinct": sd, "sessions": nsess, "events": nev,
             "fails": fails, "samples": samples, "t": [round(t1 - t0, 1), round(t2 - t1, 1), round(time.time() - t2, 1)]}
 
 
